@@ -1,0 +1,258 @@
+//! Verification hooks (feature `verif`). Observation only: nothing here draws entropy
+//! or touches generator state. With no recorder installed every hook is a thread-local
+//! `None` check.
+
+use std::cell::{Cell, RefCell};
+use std::collections::HashMap;
+use std::hash::{BuildHasher, Hasher};
+use std::ops::{Deref, DerefMut};
+
+pub use crate::generator::{EntropySource, GenerationSource};
+
+use crate::generator::Generator;
+use crate::opcodes::OpcodeKind;
+use crate::stack::StackObject;
+
+#[derive(Debug, Clone, Copy, PartialEq, Eq)]
+pub enum Phase {
+    Begin,
+    Target,
+    BodyDone,
+    Finish,
+}
+
+#[derive(Debug, Clone, Copy, PartialEq, Eq, PartialOrd, Ord)]
+pub enum TraceLevel {
+    Light,
+    Full,
+}
+
+/// one record per hook call
+#[derive(Debug, Clone, PartialEq, Eq)]
+pub enum Event {
+    /// `process_stack_ops` entered: the opcode's bytes are already in `output`, the stack
+    /// effect has not been applied yet.
+    Op {
+        opcode: u8,
+        out_len: usize,
+        depth: usize,
+        kinds: Option<Vec<u8>>,
+        memo: Option<Vec<usize>>,
+    },
+    Phase {
+        phase: Phase,
+        value: usize,
+        out_len: usize,
+        depth: usize,
+        kinds: Option<Vec<u8>>,
+        memo: Option<Vec<usize>>,
+        /// bytes left in an `Arbitrary` source (None for `Rand`)
+        entropy_left: Option<usize>,
+    },
+}
+
+pub struct Recorder {
+    pub level: TraceLevel,
+    pub events: Vec<Event>,
+    /// full snapshots only every n-th op (1 = always)
+    pub full_every: usize,
+    ops: usize,
+}
+
+impl Recorder {
+    pub fn new(level: TraceLevel, full_every: usize) -> Self {
+        Self {
+            level,
+            events: Vec::new(),
+            full_every: full_every.max(1),
+            ops: 0,
+        }
+    }
+}
+
+thread_local! {
+    static RECORDER: RefCell<Option<Recorder>> = const { RefCell::new(None) };
+    static YIELD: RefCell<Option<Box<dyn FnMut()>>> = const { RefCell::new(None) };
+    static HASH_KEY: Cell<u64> = const { Cell::new(0) };
+}
+
+pub fn install_recorder(r: Recorder) {
+    RECORDER.with(|c| *c.borrow_mut() = Some(r));
+}
+
+pub fn take_recorder() -> Option<Recorder> {
+    RECORDER.with(|c| c.borrow_mut().take())
+}
+
+pub fn install_yield(f: Option<Box<dyn FnMut()>>) {
+    YIELD.with(|c| *c.borrow_mut() = f);
+}
+
+/// key used by every `SimHashMap` created on this thread from now on
+pub fn set_hash_key(k: u64) {
+    HASH_KEY.with(|c| c.set(k));
+}
+
+pub const K_INT: u8 = 0;
+pub const K_FLOAT: u8 = 1;
+pub const K_BOOL: u8 = 2;
+pub const K_NONE: u8 = 3;
+pub const K_BYTES: u8 = 4;
+pub const K_STRING: u8 = 5;
+pub const K_BYTEARRAY: u8 = 6;
+pub const K_LIST: u8 = 7;
+pub const K_TUPLE: u8 = 8;
+pub const K_DICT: u8 = 9;
+pub const K_SET: u8 = 10;
+pub const K_FROZENSET: u8 = 11;
+pub const K_MARK: u8 = 12;
+pub const K_GLOBAL: u8 = 13;
+pub const K_INSTANCE: u8 = 14;
+pub const K_CALLABLE: u8 = 15;
+pub const K_EXTENSION: u8 = 16;
+pub const K_ANY: u8 = 17;
+
+fn kind_of(o: &StackObject) -> u8 {
+    match o {
+        StackObject::Int(_) => K_INT,
+        StackObject::Float(_) => K_FLOAT,
+        StackObject::Bool(_) => K_BOOL,
+        StackObject::None => K_NONE,
+        StackObject::Bytes(_) => K_BYTES,
+        StackObject::String(_) => K_STRING,
+        StackObject::ByteArray(_) => K_BYTEARRAY,
+        StackObject::List(_) => K_LIST,
+        StackObject::Tuple(_) => K_TUPLE,
+        StackObject::Dict(_) => K_DICT,
+        StackObject::Set(_) => K_SET,
+        StackObject::FrozenSet(_) => K_FROZENSET,
+        StackObject::Mark => K_MARK,
+        StackObject::Global { .. } => K_GLOBAL,
+        StackObject::Instance(_) => K_INSTANCE,
+        StackObject::Callable(_) => K_CALLABLE,
+        StackObject::Extension(_) => K_EXTENSION,
+        StackObject::Any => K_ANY,
+    }
+}
+
+fn snapshot(g: &Generator) -> (Vec<u8>, Vec<usize>) {
+    let kinds = g
+        .state
+        .stack
+        .inner
+        .iter()
+        .map(|r| kind_of(&r.borrow()))
+        .collect();
+    let mut memo: Vec<usize> = g.state.memo.keys().copied().collect();
+    memo.sort_unstable();
+    (kinds, memo)
+}
+
+pub(crate) fn on_op(g: &Generator, opcode: OpcodeKind) {
+    RECORDER.with(|c| {
+        if let Some(r) = c.borrow_mut().as_mut() {
+            r.ops += 1;
+            let full = r.level == TraceLevel::Full && r.ops % r.full_every == 0;
+            let (kinds, memo) = if full {
+                let (k, m) = snapshot(g);
+                (Some(k), Some(m))
+            } else {
+                (None, None)
+            };
+            r.events.push(Event::Op {
+                opcode: opcode.as_u8(),
+                out_len: g.output.len(),
+                depth: g.state.stack.len(),
+                kinds,
+                memo,
+            });
+        }
+    });
+    // take the callback out while it runs so a re-entrant hook cannot double-borrow
+    let cb = YIELD.with(|c| c.borrow_mut().take());
+    if let Some(mut f) = cb {
+        f();
+        YIELD.with(|c| {
+            let mut slot = c.borrow_mut();
+            if slot.is_none() {
+                *slot = Some(f);
+            }
+        });
+    }
+}
+
+pub(crate) fn on_phase(g: &Generator, phase: Phase, value: usize, source: &GenerationSource) {
+    RECORDER.with(|c| {
+        if let Some(r) = c.borrow_mut().as_mut() {
+            let full = r.level == TraceLevel::Full;
+            let (kinds, memo) = if full {
+                let (k, m) = snapshot(g);
+                (Some(k), Some(m))
+            } else {
+                (None, None)
+            };
+            let entropy_left = match source {
+                GenerationSource::Rand(_) => None,
+                GenerationSource::Arbitrary(u) => Some(u.len()),
+            };
+            r.events.push(Event::Phase {
+                phase,
+                value,
+                out_len: g.output.len(),
+                depth: g.state.stack.len(),
+                kinds,
+                memo,
+                entropy_left,
+            });
+        }
+    });
+}
+
+// ---------------------------------------------------------------------------------------
+// simulator-keyed hash map for `State.memo`
+
+#[derive(Clone, Debug)]
+pub struct SimBuildHasher(u64);
+
+impl Default for SimBuildHasher {
+    fn default() -> Self {
+        SimBuildHasher(HASH_KEY.with(|c| c.get()))
+    }
+}
+
+impl BuildHasher for SimBuildHasher {
+    type Hasher = std::collections::hash_map::DefaultHasher;
+    fn build_hasher(&self) -> Self::Hasher {
+        let mut h = std::collections::hash_map::DefaultHasher::new();
+        h.write_u64(self.0);
+        h
+    }
+}
+
+#[derive(Clone, Debug)]
+pub struct SimHashMap<K, V>(HashMap<K, V, SimBuildHasher>);
+
+impl<K, V> Default for SimHashMap<K, V> {
+    fn default() -> Self {
+        SimHashMap(HashMap::with_hasher(SimBuildHasher::default()))
+    }
+}
+
+impl<K, V> SimHashMap<K, V> {
+    pub fn new() -> Self {
+        Self::default()
+    }
+}
+
+impl<K, V> Deref for SimHashMap<K, V> {
+    type Target = HashMap<K, V, SimBuildHasher>;
+    fn deref(&self) -> &Self::Target {
+        &self.0
+    }
+}
+
+impl<K, V> DerefMut for SimHashMap<K, V> {
+    fn deref_mut(&mut self) -> &mut Self::Target {
+        &mut self.0
+    }
+}
